@@ -76,6 +76,15 @@ def check_tokenize(names, text, le):
     for n, v in names:
         t.add(n, v)
     t.make_automaton()
+    # the same tokenizer is first asked about the text in other letter cases: the tokens of a text are those of that text alone,
+    # whatever the tokenizer was asked before (a result remembered under the case-folded text would come back here)
+    for variant in (text.swapcase(), text.upper(), text.lower()):
+        if variant != text:
+            try:
+                list(t.tokenize(variant))
+                list(t.tokenize(variant, include_unmatched=False))
+            except Exception:   # noqa
+                pass
     toks = list(t.tokenize(text))
     enc = [[x.start, x.end, enc_str(x.string), [] if x.value is None else [x.value]] for x in toks]
     err = None
